@@ -78,6 +78,34 @@ class Check:
         self.floor(dst_rule, floor)
         return moved
 
+    def borrow_check(self, check_fn, only, dst_rule, floor=1, keys=None):
+        """Like `borrow`, for clauses that live inside another property's whole check function (e.g. C13.a/b on View::run): `check_fn(self)`
+        is evaluated, the obligations of the home rules named in `only` (including their fail-closed FLOOR obligations) are kept and
+        re-labelled `dst_rule`, everything else it recorded - and what it set on the checker (explanation, floors, extras) - is dropped."""
+        saved = (self.explanation, self.not_decided, dict(self.rule_floors), dict(self.extra), list(self.notes))
+        state = {}
+
+        def run():
+            before = len(self.obs)
+            check_fn(self)
+            new = self.obs[before:]
+            kept = []
+            for o in new:
+                home = o["rule"]
+                if home in ("ANCHOR", "SHAPE") or (home in only and (keys is None or o["key"] == "FLOOR" or keys(o["key"]))):
+                    kept.append(o)
+            self.obs = self.obs[:before] + kept
+            # counts of dropped rules are rolled back by borrow(); counts of kept rules are recomputed there from `moved`
+            state["kept"] = len(kept)
+
+        n = self.borrow(run, dst_rule, floor)
+        self.explanation, self.not_decided, floors, self.extra, self.notes = saved
+        fl = self.rule_floors.get(dst_rule)
+        self.rule_floors = floors
+        if fl is not None:
+            self.rule_floors[dst_rule] = fl
+        return n
+
     def floor(self, rule, floor, count=None):
         """fail closed if a rule matched fewer instances than were confirmed by hand"""
         n = self.rule_counts.get(rule, 0) if count is None else count
